@@ -113,8 +113,9 @@ def storePrepShape : List Bytes := [
   b!"sw.responseHeader=util.DenyHeaders(h,{HeaderRrrouterCacheStatus})" ]
 
 /-- C19: the body of the `configReloader` loop, statement by statement (log calls abbreviated),
-    in the order `Model.Config.step` mirrors: fetch · checksum compare · ParseRules · SetRules ·
-    ParseStorageConfigs · SetStorageConfigs · checksum store; every error `continue`s. -/
+    in the order `Model.Config.step` mirrors: fetch · checksum compare · ParseRules ·
+    ParseStorageConfigs · SetRules · SetStorageConfigs · checksum store (both sections are
+    validated before either is applied); every error `continue`s. -/
 def reloadSteps : List Bytes := [
   b!"<-c",
   b!"mappingData,err:=readMapping(gMappingURL,gMappingFile)",
@@ -123,9 +124,9 @@ def reloadSteps : List Bytes := [
   b!"if (gMappingChecksum==mc) {continue}",
   b!"rules,err:=proxy.ParseRules(mappingData,logger)",
   b!"if (err!=nil) {logger.Errorf(...);continue}",
-  b!"router.SetRules(rules)",
   b!"cfgs,err:=caching.ParseStorageConfigs(mappingData)",
   b!"if (err!=nil) {logger.Errorf(...);continue}",
+  b!"router.SetRules(rules)",
   b!"cache.SetStorageConfigs(cfgs)",
   b!"gMappingChecksum=util.SHA1String(mappingData)",
   b!"logger.Infof(...)" ]
